@@ -376,19 +376,21 @@ func C13(ctx *core.Ctx) int {
 		}
 		atomic.AddInt64(&orderRuns, c13CommandLineOrders(ctx, pinned, p))
 	})
+	locRuns := c13Locations(ctx, pinned)
 	nOut := 0
 	st.outcomes.Range(func(k, v any) bool { nOut++; return true })
 	cov := core.Coverage{
-		"states":                                   nOut,
-		"transitions":                              st.execs,
-		"traces_validated_against_impl":            st.traces,
-		"two_compilations_in_one_process":          map[string]any{"processes": seqProcs, "rule": "every ordered pair of the padding/option programs compiled in one process of its own, per target: the second's files = those of a process that compiled it alone"},
-		"command_line_under_other_visiting_orders": map[string]any{"runs": orderRuns, "rule": "the binary built with the seam, all six targets requested, maps visited sorted / reversed / rotated: every target's tree identical"},
-		"samples":                                  samples.List,
-		"programs":                                 len(progs),
-		"program_generator_pairs":                  len(jobs),
-		"choice_points_met":                        st.points,
-		"pairs_with_reduced_alternatives":          st.reduced,
+		"states":                          nOut,
+		"transitions":                     st.execs,
+		"traces_validated_against_impl":   st.traces,
+		"two_compilations_in_one_process": map[string]any{"processes": seqProcs, "rule": "every ordered pair of the padding/option programs compiled in one process of its own, per target: the second's files = those of a process that compiled it alone"},
+		"same_command_from_differently_named_directories": map[string]any{"runs": locRuns, "rule": "absolute input path, output directory . and out, three working directories with different names, with and without package options: identical files"},
+		"command_line_under_other_visiting_orders":        map[string]any{"runs": orderRuns, "rule": "the binary built with the seam, all six targets requested, maps visited sorted / reversed / rotated: every target's tree identical"},
+		"samples":                         samples.List,
+		"programs":                        len(progs),
+		"program_generator_pairs":         len(jobs),
+		"choice_points_met":               st.points,
+		"pairs_with_reduced_alternatives": st.reduced,
 		"pairs_where_execution_cap_forced_deviation_bound_2": st.bounded,
 		"full_permutations_up_to_n":                          fullPerm,
 		"exhaustive":                                         st.reduced == 0 && st.bounded == 0 && degraded == 0,
